@@ -25,6 +25,9 @@ extern int mpt_path_add(MPT_STRUCT(path) *path, int add)
 	if (!(data = (char *) path->base)) {
 		return MPT_ERROR(MissingBuffer);
 	}
+	if (add < 0) {
+		return MPT_ERROR(BadArgument);
+	}
 	len = path->off + path->len;
 	
 	if (path->flags & MPT_PATHFLAG(HasArray)) {
@@ -78,7 +81,8 @@ extern int mpt_path_add(MPT_STRUCT(path) *path, int add)
 		if (len) {
 			data[len - 1] = path->sep;
 		} else {
-			path->first = add;
+			/* length not representable: search separator on next access */
+			path->first = (add > UINT8_MAX) ? 0 : add;
 		}
 		/* set next part */
 		len += add;
